@@ -693,9 +693,10 @@ def run_race_check(prop, tier, seed):
         samples.append(dict(seed=l['Seed'], config=r.get('Config'), program=r.get('Program'), steps=l['Steps'], calls=l['Calls']))
     ev = dict(property_id=prop, tier=tier, seed=seed, level='exploration', wall_s=round(wall, 2), violations=len(reported),
               assumptions=['the Go race detector is sound for the accesses that execute (happens-before based); the dsync redirection (TryLock polling) creates no extra happens-before edges',
-                           'harness tasks are not scheduled one at a time in this mode, so harness synchronisation does not order library accesses'],
+                           'harness tasks are not scheduled one at a time in this mode, so harness synchronisation does not order library accesses',
+                           'stall injection (T6): dsync.Stall sleeps on the fake clock and shares no synchronised state between goroutines (its counter and the harness-lock flag live in //go:norace functions), so a stall adds no happens-before edge; a reported pair of accesses is unordered in the real program too'],
               coverage=dict(evaluations=len(lines), distinct_nontrivial=agg['distinct_nontrivial'],
-                            rule='one evaluation = one simulated run of the widest swarm profile in its own OS process under -race (L1 mode: simulated network, clock, puppets, faults; goroutine interleaving left to the Go runtime, 4 Ps). distinct = distinct signature of the sequence of driver actions (network deliveries, connects, faults, cancellations, ticks); non-trivial = at least two client threads of the program issue calls / build configurations / close concurrently (the library has no scheduling points in this mode).',
+                            rule='one evaluation = one simulated run of the widest swarm profile in its own OS process under -race (L1 mode: simulated network, clock, puppets, faults; goroutine interleaving left to the Go runtime, 4 Ps). distinct = distinct signature of the sequence of driver actions (network deliveries, connects, faults, cancellations, ticks); non-trivial = at least two client threads of the program issue calls / build configurations / close concurrently. The library has no scheduling points in this mode, but per run a seeded stall plan (none / spray / targeted, DESIGN.md 4.8) holds library goroutines up on the fake clock before chosen statements; faults_fired.stall counts the stalls executed (approximate: unsynchronised counter), reset-after-stall / restart-after-stall the faults placed right after a stall.',
                             samples=samples or [dict(note='none')], exhaustive=False, runs_per_hour=int(len(lines) / wall * 3600) if wall > 0 else 0,
                             steps_total=agg['steps'], calls_total=agg['calls'], sim_time_s_total=round(agg['sim_ms'] / 1000.0, 1), faults_fired=agg['faults'], network=agg['net'], probes=agg['probes'],
                             race_reports_with_library_frames={k: len(v) for k, v in found.items()}, harness_only_race_reports=harness_total,
